@@ -95,6 +95,13 @@ Theorem C17_burst : forall H decompress A B P rest r e,
   decode_view H decompress (A ++ B ++ xor_bytes P e ++ rest) = RErr ECrc.
 Proof. intros H decompress. exact (burst_in_payload_detected H (fun x => x) decompress). Qed.
 
+(* in particular every single flipped bit of header/stored data *)
+Theorem C17_single_bit : forall H decompress A B P rest r e,
+  valid_at H decompress A B P rest r -> all_bytes e -> length P = length e ->
+  (exists pre post, bytes_bits e = repeat false pre ++ true :: repeat false post) ->
+  decode_view H decompress (A ++ B ++ xor_bytes P e ++ rest) = RErr ECrc.
+Proof. exact single_bit_detected. Qed.
+
 (* any change of the stored CRC field alone *)
 Theorem C17_crc_field : forall H decompress A B B' P rest r,
   valid_at H decompress A B P rest r -> all_bytes B' -> lenN B' = 4 -> B' <> B ->
